@@ -632,9 +632,15 @@ where R: EucRing + DivRound + Debug + Send + 'static, for<'x> &'x R: EucRingOps<
     }
     // multiples and common factors: a = x*h, b = y*h (early-return paths and non-trivial gcds)
     let n = (max_pairs / 4).max(10);
+    // factors: for machine coefficient types only values whose products stay below the limit
+    let facs: Vec<P> = match c.lim {
+        Some(l) => { let m = pow2(l / 2 - 1); vals.iter().filter(|v| v.0.abs() < m && v.1.abs() < m).cloned().collect() }
+        None => vals.to_vec(),
+    };
+    let smalls: Vec<P> = vals.iter().filter(|v| v.0.abs() < bi(60) && v.1.abs() < bi(60)).cloned().collect();
     for _ in 0..n {
-        let k = 14.min(vals.len());
-        let (x, y, h) = (r.pick(&vals[..k]).clone(), r.pick(vals).clone(), r.pick(&vals[..k]).clone());
+        let hs = r.bool();
+        let (x, y, h) = (r.pick(&smalls).clone(), r.pick(&facs).clone(), r.pick(if hs { &smalls } else { &facs }).clone());
         let (a, b) = (qmul(c.d, &x, &h), qmul(c.d, &y, &h));
         let (a, b) = match r.below(4) { 0 => (h.clone(), b), 1 => (a, h.clone()), _ => (a, b) };
         if let Some(l) = c.lim {
